@@ -59,6 +59,11 @@ TTbSearch ==
           k == Tr[l].val
           best == MvOfSeq(Tr[l].best)
           bestVals == { sc[i][4] : i \in { j \in 1..Len(sc) : Mv(sc[j][1], sc[j][2], sc[j][3]) = best } }
+          \* Without pawns only a capture resets the clock.  The mating side can still win after a capture only if it then owns a
+          \* queen or a rook: with four men that is the case iff it owns one now (it keeps it when the other man is captured); with
+          \* three men, or with minor pieces only, every capture leaves it with at most a lone minor piece, so its mate must fit.
+          matingWhite == (v > 0) = r.wtm
+          ResetCanHelp == Len(r.pcs) = 4 /\ \E i \in 1..Len(r.pcs) : r.pcs[i][2] \in (IF matingWhite THEN {2, 3} ELSE {8, 9})
       IN /\ Chk("OracleRowConsistent", SuccOK(sc, L) /\ ~Null(v) /\ (\A i \in 1..Len(sc) : ~Null(sc[i][4]))
                                         /\ Bellman(p, v, { sc[i][4] : i \in 1..Len(sc) }), r.pcs)
          /\ Chk("ExactReport", Tr[l].bound = "", Tr[l].line)
@@ -67,11 +72,11 @@ TTbSearch ==
             ELSE IF fits
             THEN Chk("ExactDistanceToMate", isMateScore /\ k = (IF v > 0 THEN n ELSE -n), <<"dtm", IF v > 0 THEN n ELSE -n, Tr[l].line>>)
             ELSE Chk("NoMateBeyondFiftyMoveLimit",
-                     \* an announced mate is never shorter than the exact one; with three men no capture can reset
-                     \* the counter, so no mate may be announced at all (with four men a capture or a sacrifice can)
+                     \* an announced mate is never shorter than the exact one, and none may be announced at all unless a capture
+                     \* can reset the counter and leave the mating side with mating material (ResetCanHelp)
                      isMateScore => /\ (k > 0) = (v > 0)
                                     /\ (IF k > 0 THEN k >= n ELSE -k >= n)
-                                    /\ Len(r.pcs) > 3,
+                                    /\ ResetCanHelp,
                      <<"dtm", n, "hmc", h, Tr[l].line>>)
          /\ Chk("BestMoveLegal", best \in L, Tr[l].best)
          /\ (best \in L /\ v > 0 /\ fits) => Chk("BestMoveKeepsShortestMate", \A x \in bestVals : Back(x) = v, <<bestVals, v>>)
